@@ -37,6 +37,7 @@ class FnSpec:
         self.fsubst = []
         self.ret = 'r'
         self.panic_frame = False
+        self.optional = False
         self.spec = []          # [(text, vcfile, vcline)]
         self.loops = {}         # ordinal -> [(text, vcfile, vcline)]
         self.ats = []           # [(anchor, [(text, vcfile, vcline)])]
@@ -86,6 +87,7 @@ class Unit:
         self.params = dict(WORDS[inst]) if inst else {}
         self.path = os.path.join(CONTRACTS, base + '.vc')
         self.slice_recv = []
+        self.slice_recv_ref = []
         self.substs = []
         self.elements = []    # ('text', Line) | ('fn', FnSpec) | ('item', dict)
         self.props = set()
@@ -116,6 +118,8 @@ class Unit:
                         pass
                     elif word == 'slice_recv':
                         self.slice_recv.append(arg)
+                    elif word == 'slice_recv_ref':
+                        self.slice_recv_ref.append(arg)
                     elif word == 'subst':
                         self.substs.append(_parse_subst(arg, '%s:%d' % (rel, n)))
                     elif word == 'include':
@@ -163,6 +167,8 @@ class Unit:
                         cur.vis = arg
                     elif word == 'panic_frame':
                         cur.panic_frame = True
+                    elif word == 'optional':
+                        cur.optional = True
                     elif word == 'no_end_probe':
                         cur.no_end_probe = True
                     elif word == 'spec':
@@ -317,6 +323,12 @@ def assemble(unit, index, expanded_name='expanded.rs', probe=None, lenient=False
             t = rw.apply_substs(t, unit.substs, fired)
             if el['kind'] == 'struct':
                 # field visibility has no semantics for the properties (R8); spec functions need to read fields
+                t = re.sub(r'pub\s*\((?:super|crate|self|in [^)]*)\)', 'pub', t)
+                mt = re.search(r'(struct\s+\w+\s*(?:<[^>]*>)?\s*)\((.*)\)\s*;', t, re.S)
+                if mt:
+                    fields = [f.strip() for f in _split_top(mt.group(2)) if f.strip()]
+                    fields = [f if f.startswith('pub') else 'pub ' + f for f in fields]
+                    t = t[:mt.start()] + mt.group(1) + '(' + ', '.join(fields) + ');' + '\n' * mt.group(0).count('\n') + t[mt.end():]
                 t = re.sub(r'(?m)^(\s+)(?!pub\b)([A-Za-z_]\w*\s*:)', r'\1pub \2', t)
             for k, ln in enumerate(t.split('\n')):
                 if ln.strip():
@@ -324,6 +336,8 @@ def assemble(unit, index, expanded_name='expanded.rs', probe=None, lenient=False
             continue
         fs = el
         cands = index.find_fn(fs.module, fs.header, fs.name)
+        if len(cands) == 0 and fs.optional:
+            continue
         if len(cands) != 1:
             raise ExtractError('function %s | %s | %s: %d matches in expanded text (lost anchor)'
                                % (fs.module, fs.header, fs.name, len(cands)))
@@ -336,7 +350,7 @@ def assemble(unit, index, expanded_name='expanded.rs', probe=None, lenient=False
             text = rw.rule_r4p_debug(text, fired)
             text = rw.rule_r6_idioms(text, fired)
             text = rw.apply_substs(text, unit.substs, fired)
-            text = rw.rule_r3_unchecked(text, fired, unit.slice_recv)
+            text = rw.rule_r3_unchecked(text, fired, unit.slice_recv, unit.slice_recv_ref)
             text = rw.apply_substs(text, fs.fsubst, fired)
         except rw.Unsupported as e:
             raise ExtractError('%s: unsupported construct: %s' % (fs.display(), e))
